@@ -696,6 +696,9 @@ pub fn main(build: impl Fn(&str, Tier) -> Option<CheckDef>) -> ! {
         let resume = if args.len() >= 11 { Some((args[9].parse().unwrap(), args[10].parse().unwrap())) } else { None };
         std::process::exit(worker_main(&def, &prop, tier, &flavour, is_default, w, nw, resume, &slot));
     }
+    if args.iter().any(|a| a == "--single") {
+        std::process::exit(single_main(&def, &prop, tier));
+    }
     let bins = parse_bins(args.iter().position(|a| a == "--bins").and_then(|p| args.get(p + 1).cloned()));
     std::process::exit(parent_main(&def, &prop, tier, &bins));
 }
@@ -920,6 +923,41 @@ fn parent_main(def: &CheckDef, prop: &str, tier: Tier, bins: &[(String, String)]
         return 2;
     }
     0
+}
+
+/// Run every case of every sub in this process (no workers, no files): used to run a
+/// check under an interpreter such as Miri. Prints one summary line.
+fn single_main(def: &CheckDef, prop: &str, tier: Tier) -> i32 {
+    let mut ctx = Ctx::new(prop, tier, "single");
+    ctx.sample_cap = 0;
+    for (si, sub) in def.subs.iter().enumerate() {
+        ctx.sub = sub.name.clone();
+        ctx.sub_idx = si as u64;
+        for i in 0..sub.len {
+            ctx.index = i;
+            (sub.run)(&mut ctx, i);
+        }
+    }
+    for v in &ctx.violations {
+        println!("SINGLE-VIOLATION {} :: {}", v.key(), v.detail);
+    }
+    println!(
+        "SINGLE {} {}: evaluations={} states={} transitions={} violations={} machinery={}",
+        prop,
+        tier.name(),
+        ctx.evals,
+        ctx.states,
+        ctx.transitions,
+        ctx.violations.len(),
+        ctx.machinery.len()
+    );
+    if !ctx.violations.is_empty() {
+        1
+    } else if !ctx.machinery.is_empty() {
+        2
+    } else {
+        0
+    }
 }
 
 fn replay_main(build: &impl Fn(&str, Tier) -> Option<CheckDef>, prop: &str, file: &str, inproc: bool) -> i32 {
